@@ -341,6 +341,8 @@ def impl(spec, inp):
     if f == "ivl-bin":
         return guarded(lambda: PYOPS[spec["op"]](mkI(inp["x"]), mkI(inp["y"])))
     if f == "ivl-un":
+        if spec["fn"] == "powk":
+            return guarded(lambda: mkI(inp["x"]) ** int(spec["k"]))
         return guarded(lambda: UN_IVL[spec["fn"]](mkI(inp["x"])))
     if f == "itree":
         return guarded(lambda: ieval(spec["tree"], [mkI(b) for b in inp["box"]]))
@@ -365,6 +367,8 @@ def impl(spec, inp):
     if f == "pb-recip":
         return guarded(lambda: stair(*inp["x"]).reciprocal())
     if f == "pb-un":
+        if spec["fn"] == "powk":
+            return guarded(lambda: stair(*inp["x"]) ** int(spec["k"]))
         return guarded(lambda: UN_PB[spec["fn"]](stair(*inp["x"])))
     if f == "pb-agg":
         def run():
@@ -487,6 +491,8 @@ def _wire(spec, inp):
         return f"bin {spec['op']} {w_opd(inp['x'])} {w_opd(inp['y'])}"
     if f == "ivl-un":
         fn = spec["fn"]
+        if fn == "powk":
+            return None
         if fn == "neg":
             return f"neg {w_opd(inp['x'])}"
         if fn == "recip":
@@ -775,6 +781,13 @@ def in_domain(spec, inp):
             return not any(a <= 0 <= b for a, b in zip(y[0], y[1]))       # a vector divisor: element by element
         return not (spec["op"] == "div" and has0(y))
     if f == "ivl-un":
+        if spec["fn"] == "powk":
+            x = inp["x"]
+            if spec["k"] >= 0:
+                return True
+            if isinstance(x[0], (list, tuple)):
+                return not any(a <= 0 <= b for a, b in zip(x[0], x[1]))
+            return not (x[0] <= 0 <= x[1])
         fn, (lo, hi) = spec["fn"], inp["x"]
         if fn == "log":
             return lo > 0
@@ -793,6 +806,8 @@ def in_domain(spec, inp):
         return not has0(inp["x"])
     if f == "pb-un":
         fn = spec["fn"]
+        if fn == "powk":
+            return spec["k"] >= 0 or not has0(inp["x"])
         if fn.endswith("log"):
             return min(inp["x"][0]) > 0
         if fn.endswith("sqrt"):
@@ -940,15 +955,32 @@ def sub_result_check(spec, inp, res, exact, depth, rng, hint=0.0):
     if f == "ivl-un":
         fn = spec["fn"]
         g = {"neg": lambda a: -a, "abs": lambda a: abs(a), "pow2": lambda a: a * a, "pow3": lambda a: a * a * a,
-             "recip": lambda a: 1 / a}.get(fn)
+             "recip": lambda a: 1 / a, "powk": lambda a: a ** int(spec.get("k", 1))}.get(fn)
         if g is None:
             return None
-        for a in pts_of(inp["x"], rng):
-            if fn == "recip" and a == 0:
+        x = inp["x"]
+        elems = [[a, b] for a, b in zip(x[0], x[1])] if isinstance(x[0], (list, tuple)) else [x]
+        if len(res[1]) != len(elems):
+            return {"why": "shape", "len": len(res[1])}
+        for i, e in enumerate(elems):
+            for a in pts_of(e, rng):
+                if (fn == "recip" or (fn == "powk" and spec["k"] < 0)) and a == 0:
+                    continue
+                v = g(a)
+                if not inside(v, res[1][i], res[2][i], exact, scale, depth):
+                    return {"why": "point", "element": i, "x": float(a), "value": float(v), "result": [res[1][i], res[2][i]]}
+        return None
+    if f == "pb-un" and spec["fn"] == "powk":
+        k = int(spec["k"])
+        x = inp["x"]
+        RL, RR = [F(a) for a in res[1]], [F(a) for a in res[2]]
+        for sx in ([F(a) for a in x[0]], [F(a) for a in x[1]]):
+            if k < 0 and any(a == 0 for a in sx):
                 continue
-            v = g(a)
-            if not inside(v, res[1][0], res[2][0], exact, scale, depth):
-                return {"why": "point", "x": float(a), "value": float(v), "result": [res[1][0], res[2][0]]}
+            z = sorted(a ** k for a in sx)
+            for j in range(len(z)):
+                if not (pbx.tol_le(RL[j], z[j], scale, depth) and pbx.tol_le(z[j], RR[j], scale, depth)):
+                    return {"why": "precise-sub-box", "step": j, "value": float(z[j]), "result": [res[1][j], res[2][j]]}
         return None
     if f in ("itree", "b2b"):
         if f == "b2b" and spec["strategy"] != "direct" and spec.get("repeated"):
@@ -1854,7 +1886,7 @@ WITNESSES = [
 
 # =====================================================================================================
 def features(spec, extra):
-    keep = ("f", "op", "dep", "fn", "rule", "agg", "api", "strategy", "style", "monotone", "repeated", "side", "ykind", "form", "rep",
+    keep = ("f", "op", "dep", "fn", "k", "rule", "agg", "api", "strategy", "style", "monotone", "repeated", "side", "ykind", "form", "rep",
             "family", "order")
     d = {("family" if k == "f" else ("copula" if k == "family" else k)): spec[k] for k in keep if k in spec and spec[k] is not None}
     d.update(extra)
@@ -2104,6 +2136,20 @@ def _oracle(ctx, c, impls, dep):
             ctx.bump("unbounded-result")
             return
         if not dom:
+            # lesson G: where F(X) returned a value, F(X') has to return a containing value OR raise.  For the maps
+            # with a pole / a domain edge (negative powers, reciprocal, sqrt, log) a wider operand that leaves the
+            # domain must not come back with a finite value that does not contain the narrower result
+            fn = spec.get("fn", "")
+            if spec["f"] in ("ivl-un", "pb-un") and (fn in ("powk", "recip", "log", "sqrt", "nplog", "npsqrt")) and i > 0 \
+                    and doms[i - 1] and impls[i - 1][0] == "ok" and finite(impls[i - 1]):
+                w = contained(impls[i - 1], im, exact, dep, hint)
+                if w is not None:
+                    ctx.fail(features(spec, {"check": "must-raise", "symptom": "finite-non-containing-value-outside-domain", "k": spec.get("k")}),
+                             {**case_json, "witness": w, "impl": [pbx.js(x_[:3]) for x_ in impls if x_[0] == "ok"]},
+                             f"{stream}: the wider operand is outside the domain of {fn}{spec.get('k', '')} (a pole / an undefined value inside): "
+                             f"the call has to raise, it returned a finite value that does not contain the result for the contained operand "
+                             f"({w['why']}: {w.get('narrow')} vs {w.get('wide')})")
+                    return
             ctx.bump("outside-domain")
             return
     import random, zlib
